@@ -280,7 +280,8 @@ def gen_sampler_case(rng, kind, preset=None):
             c["sampler"] = gen_sampler(rng, vars_, others, cap=40, allow_concat=False,
                                        static=(rng.random() < 0.15) if group else None)
         else:
-            c["sampler"] = {"op": "empty"}
+            # no further variables: the default (non-static) EmptySampler or the static PointSampler.empty()
+            c["sampler"] = {"op": "empty"} if rng.random() < 0.5 else {"op": "empty_static"}
     elif kind == "integro":
         c["sampler"] = gen_sampler(rng, vars_, others, cap=30)
         c["int_sampler"] = gen_sampler(rng, vars_, ["s"], cap=6, allow_concat=False)
@@ -449,7 +450,7 @@ GROUP_KINDS = [("pinn", 0.36), ("single", 0.10), ("mean", 0.08), ("periodic", 0.
 
 def _seed_samplers(rng, spec):
     """every top-level sampler object becomes a deterministic function of its call count"""
-    if spec is None or spec["op"] == "empty":
+    if spec is None or spec["op"] in ("empty", "empty_static"):
         return
     spec["seeded"] = int(rng.integers(0, 2 ** 30))
 
@@ -477,8 +478,9 @@ def gen_group_case(rng):
     if "integro" in kinds:
         force["s"] = 1
     maxdim = 3 if "pideeponet" in kinds else 5
-    vars_ = gen_vars(rng, max(1, len(force) + (1 if "integro" in kinds and len(force) == 1 else 0)), 3,
-                     maxdim=maxdim, force=force or None)
+    nmin = max(1, len(force) + (1 if "integro" in kinds and len(force) == 1 else 0))
+    only_t = "periodic" in kinds and nmin == 1 and rng.random() < 0.35      # periodic conditions without further variables
+    vars_ = gen_vars(rng, nmin, 1 if only_t else 3, maxdim=maxdim, force=force or None)
     for v in vars_:
         if v["name"] == "t":
             v["dom"] = "rect"
@@ -711,6 +713,57 @@ def gen_varsets_group(rng):
     g["data"], g["params"], g["defaults"] = data, params, defaults
     g["share"] = {"dict": bool(rng.random() < 0.6), "model": bool(rng.random() < 0.5), "param": bool(rng.random() < 0.5),
                   "defaults": bool(rng.random() < 0.6), "functions": True, "residual": bool(rng.random() < 0.6)}
+    g["build_order"] = [int(i) for i in rng.permutation(n)]
+    g["eval_orders"] = [[int(i) for i in rng.permutation(n)] for _ in range(g["rounds"])]
+    return g
+
+
+# ---------------------------------------------------------------------------------------------
+# C14: one random base sampler object made static separately for several conditions
+# ---------------------------------------------------------------------------------------------
+
+def gen_staticof_group(rng):
+    """base.make_static() for some conditions, base.make_static(resample_interval=k) for others, in random order.  The
+    base sampler is random and stateless; the harness seeds torch before every construction / evaluation (seed_ops), so
+    the points of each condition are the same alone and in company.  Conditions with a finite interval get no data
+    functions (C04's known deviation D24)."""
+    n = int(rng.choice([2, 2, 3, 4]))
+    vars_ = gen_vars(rng, 1, 3)
+    names = [v["name"] for v in vars_]
+    g = {"kind": "group", "mode": "staticof", "seed": int(rng.integers(0, 2 ** 31)), "seed_ops": True,
+         "rounds": int(rng.integers(4, 7)), "vars": vars_}
+    base = gen_sampler(rng, vars_, names, cap=40, static=False, allow_filter=False, allow_concat=False)
+
+    def randomize(sp):
+        if sp["op"] == "leaf":
+            sp["kind"] = "random"
+        else:
+            randomize(sp["a"])
+            randomize(sp["b"])
+    randomize(base)
+    base["share"] = "B0"
+    intervals = [None if rng.random() < 0.5 else int(rng.integers(2, 4)) for _ in range(n)]
+    intervals[int(rng.integers(0, n))] = None
+    if all(x is None for x in intervals):
+        intervals[int(rng.integers(0, n))] = int(rng.integers(2, 4))
+    data = gen_data(rng, vars_, nmax=2, nmin=0, p_const=0.0)
+    params = _fill_params(rng, gen_params(rng, 0.3))
+    defaults = {}
+    model = gen_model(rng, vars_)
+    conds = []
+    for i in range(n):
+        kind = str(rng.choice(["pinn", "single", "mean"], p=[0.6, 0.25, 0.15]))
+        preset = {"vars": vars_, "data": data if intervals[i] is None else [], "params": params, "defaults": defaults}
+        if rng.random() < 0.5:
+            preset["model"] = model
+        c = gen_sampler_case(rng, kind, preset)
+        c["name"] = "cond%d_%s" % (i, kind)
+        c["sampler"] = {"op": "static", "a": dict(base), "interval": intervals[i]}
+        conds.append(c)
+    g["conds"] = conds
+    g["data"], g["params"], g["defaults"] = [], params, defaults
+    g["share"] = {"dict": False, "model": bool(rng.random() < 0.5), "param": bool(rng.random() < 0.5),
+                  "defaults": False, "functions": True}
     g["build_order"] = [int(i) for i in rng.permutation(n)]
     g["eval_orders"] = [[int(i) for i in rng.permutation(n)] for _ in range(g["rounds"])]
     return g
